@@ -164,6 +164,7 @@ package anytype
 //@   on_panic unchanged: listsUnchanged(H0)
 //@   ensures  len: len(ego.val) == n
 //@   ensures  others: forall j int :: 0 <= j && j < n && j != index ==> ego.val[j] == old(ego.val[j])
+//@   ensures  same-storage: arr(ego.val) == old(arr(ego.val)) && cap(ego.val) == old(cap(ego.val))
 //@   ensures  at: wrapsS(ego.val[index], value)
 //@   ensures  fluent: result == ego.ptr [C19]
 //@   ensures  ptr-kept: ego.ptr == old(ego.ptr)
@@ -1315,3 +1316,86 @@ package anytype
 //@   ensures  none: n == 0 ==> same(result, float(0))
 //@   ensures  bound: n > 0 ==> (forall j int :: 0 <= j && j < n ==> fle(numF(ego.val[j]), result))
 //@   ensures  attained: n > 0 ==> (exists j int :: 0 <= j && j < n && feq(result, numF(ego.val[j])))
+
+// ---------------------------------------------------------------------------
+// Async variants (C15): goroutine bodies are executed at their spawn point; the WaitGroup token
+// discipline (Add mints, every spawned body Dones exactly once, Wait needs zero outstanding tokens and
+// precedes every return) and the mutex bracket around shared writes are obligations.
+// ---------------------------------------------------------------------------
+
+//@ func (*list).ForEachAsync callbacks [C15 C19]
+//@   requires invL(ego)
+//@   let n := len(ego.val)
+//@   let t0 := trlen()
+//@   assigns  nothing
+//@   panics_iff false
+//@   ensures  count: trlen() == t0 + n
+//@   ensures  calls: forall j int :: t0 <= j && j < t0 + n ==> trA(j) == VInt(j - t0) && trB(j) == valOf(ego.val[j - t0])
+//@   ensures  prefix: forall j int :: 0 <= j && j < t0 ==> trA(j) == old(trA(j)) && trB(j) == old(trB(j))
+//@   ensures  fluent: result == ego.ptr [C19]
+//@   loop 1
+//@     assigns cell(wg)
+//@     invariant range: 0 <= idx && idx <= n
+//@     invariant tokens: deref(wg) == n - idx
+//@     invariant count: trlen() == t0 + idx
+//@     invariant calls: forall j int :: t0 <= j && j < t0 + idx ==> trA(j) == VInt(j - t0) && trB(j) == valOf(ego.val[j - t0])
+//@     invariant prefix: forall j int :: 0 <= j && j < t0 ==> trA(j) == old(trA(j)) && trB(j) == old(trB(j))
+//@     decreases n - idx
+
+//@ func (*list).MapAsync callbacks [C15 C09]
+//@   requires invL(ego)
+//@   let n := len(ego.val)
+//@   assigns  nothing
+//@   panics_iff exists k int :: 0 <= k && k < n && !supp(cbret(VInt(k), valOf(ego.val[k])))
+//@   plet r := list(vlref(result))
+//@   ensures  new: isVList(result) && fresh(r) && plain(r) && invL(r) && r.ptr == result && fresh(arr(r.val))
+//@   ensures  len: len(r.val) == n
+//@   ensures  same-as-map: forall k int :: 0 <= k && k < n ==> wrapsS(r.val[k], cbret(VInt(k), valOf(ego.val[k])))
+//@   loop 1
+//@     assigns cell(wg) && cell(mutex) && list(list(vlref(deref(result))))
+//@     let r := list(vlref(deref(result)))
+//@     invariant range: 0 <= idx && idx <= n
+//@     invariant tokens: deref(wg) == n - idx && !deref(mutex)
+//@     invariant hdr: isVList(deref(result)) && fresh(r) && plain(r) && invL(r) && r.ptr == deref(result) && fresh(arr(r.val)) && len(r.val) == n
+//@     invariant done: forall k int :: 0 <= k && k < idx ==> wrapsS(r.val[k], cbret(VInt(k), valOf(ego.val[k])))
+//@     invariant none-bad: forall k int :: 0 <= k && k < idx ==> supp(cbret(VInt(k), valOf(ego.val[k])))
+//@     decreases n - idx
+
+//@ func (*object).ForEachAsync callbacks [C15 C19]
+//@   requires invO(ego)
+//@   let n := len(ego.val)
+//@   let t0 := trlen()
+//@   assigns  nothing
+//@   panics_iff false
+//@   ensures  calls: exists o ord :: {isEnum(o, dom(ego.val), n)} isEnum(o, dom(ego.val), n) && trlen() == t0 + n && (forall k int :: 0 <= k && k < n ==> trA(t0 + k) == VStr(o[k]) && trB(t0 + k) == valOf(ego.val[o[k]]))
+//@   ensures  prefix: forall j int :: 0 <= j && j < t0 ==> trA(j) == old(trA(j)) && trB(j) == old(trB(j))
+//@   ensures  fluent: result == ego.ptr [C19]
+//@   loop 1
+//@     assigns cell(wg)
+//@     invariant range: 0 <= idx && idx <= ordn && ordn == n
+//@     invariant tokens: deref(wg) == n - idx
+//@     invariant count: trlen() == t0 + idx
+//@     invariant calls: forall j int :: t0 <= j && j < t0 + idx ==> trA(j) == VStr(ord[j - t0]) && trB(j) == valOf(ego.val[ord[j - t0]])
+//@     invariant prefix: forall j int :: 0 <= j && j < t0 ==> trA(j) == old(trA(j)) && trB(j) == old(trB(j))
+//@     decreases ordn - idx
+
+//@ func (*object).MapAsync callbacks [C15 C09]
+//@   requires invO(ego)
+//@   let n := len(ego.val)
+//@   assigns  nothing
+//@   panics_iff exists k str :: has(ego.val, k) && !supp(cbret(VStr(k), valOf(ego.val[k])))
+//@   plet r := obj(voref(result))
+//@   ensures  new: isVObj(result) && fresh(r) && plain(r) && invO(r) && r.ptr == result && fresh(mapid(r.val))
+//@   ensures  keys: forall k str :: {has(r.val, k)} has(r.val, k) == old(has(ego.val, k))
+//@   ensures  same-as-map: forall k str :: {r.val[k]} has(r.val, k) ==> wrapsS(r.val[k], old(cbret(VStr(k), valOf(ego.val[k]))))
+//@   loop 1
+//@     assigns cell(wg) && cell(mutex) && obj(obj(voref(deref(result))))
+//@     let r := obj(voref(deref(result)))
+//@     elet m0 := mapid(obj(voref(deref(result))).val)
+//@     invariant range: 0 <= idx && idx <= ordn && ordn == n
+//@     invariant tokens: deref(wg) == n - idx && !deref(mutex)
+//@     invariant hdr: isVObj(deref(result)) && fresh(r) && plain(r) && invO(r) && r.ptr == deref(result) && mapid(r.val) == m0 && fresh(m0)
+//@     invariant keys: forall k str :: {has(r.val, k)} has(r.val, k) == (has(ego.val, k) && ordpos[k] < idx)
+//@     invariant vals: forall k str :: {r.val[k]} has(r.val, k) ==> wrapsS(r.val[k], cbret(VStr(k), valOf(ego.val[k])))
+//@     invariant none-bad: forall k str :: {ordpos[k]} has(ego.val, k) && ordpos[k] < idx ==> supp(cbret(VStr(k), valOf(ego.val[k])))
+//@     decreases ordn - idx
